@@ -405,7 +405,9 @@ def lookup_edges(body, blocks, field):
 def membership_loop(body, field, hit_pred):
     """`body` is a boolean search over the collection `field` (a loop, which is also what `.iter().any(..)` reads as):
     it returns true only on a path where hit_pred(path) holds for an element of this iteration, and false only when the
-    iteration is exhausted.  hit_pred(body, next_call, path) -> bool."""
+    iteration is exhausted.  hit_pred(body, next_call, path) -> bool.  A search that looks at the first entry on its own
+    and loops over the rest (`split_first`) is the same search: the head test counts as a hit, the empty list as
+    exhaustion."""
     from .. import paths as _paths
     nxt = [c for c in body.calls.values() if c.bb in body.reachable and c.is_("core::iter::Iterator::next")
            and any(x[0] == "field" and x[2] == field for x in walk(body.operand_term(c.args[0])))]
@@ -419,6 +421,26 @@ def membership_loop(body, field, hit_pred):
             sw = si
     if sw is None or sw["edges"].get("None") is None:
         return False
+    # head / tail split: the loop runs over `split_first(field).1`; the None edge of the split is the empty list
+    it = body.operand_term(nx.args[0])
+    split = [x for x in walk(it) if isinstance(x, tuple) and is_call(x, "split_first") and x[3]
+             and any(y[0] == "field" and y[2] == field for y in walk(x[3][0]) if isinstance(y, tuple))]
+    empty_edges = []
+    if split:
+        for bb in body.switches:
+            si = body.switch_info(bb)
+            if si["enum"] == "core::option::Option" and si["edges"].get("None") is not None \
+                    and any(isinstance(a, tuple) and a[0] == "call" and a[1] == split[0][1] for a in phi_alts(peel(si["subject"]))):
+                empty_edges.append((bb, si["edges"]["None"]))
+        for c in body.calls.values():
+            # `split_first()?`
+            if c.bb in body.reachable and c.path == "core::ops::Try::branch" and c.args \
+                    and any(isinstance(a, tuple) and a[0] == "call" and a[1] == split[0][1] for a in phi_alts(peel(body.operand_term(c.args[0])))):
+                for si in body.result_switches(lambda x, c=c: peel(x)[0] == "call" and peel(x)[1] == c.bb):
+                    if si["edges"].get("Break") is not None:
+                        empty_edges.append((si["bb"], si["edges"]["Break"]))
+        if not empty_edges:
+            return False
     trues = falses = 0
     for lf in _paths.explore(body, 0, lambda t: False, lambda b, x: False, max_paths=4000):
         if lf["kind"] == "limit":
@@ -427,12 +449,13 @@ def membership_loop(body, field, hit_pred):
             continue
         v = _paths.value_on_path(body, lf["path"], 0)
         p_ = lf["path"]
-        exhausted = any(p_[i] == sw["bb"] and p_[i + 1] == sw["edges"]["None"] for i in range(len(p_) - 1))
+        exhausted = any(p_[i] == sw["bb"] and p_[i + 1] == sw["edges"]["None"] for i in range(len(p_) - 1)) or \
+            any(p_[i] == a and p_[i + 1] == b_ for (a, b_) in empty_edges for i in range(len(p_) - 1))
         if v is None or v[0] != "const" or v[2] not in (0, 1):
             return False
         if v[2] == 1:
             trues += 1
-            if exhausted or not hit_pred(body, nx, p_):
+            if exhausted or not (hit_pred(body, nx, p_) or (split and hit_pred(body, None, p_, head_of=split[0]))):
                 return False
         else:
             falses += 1
@@ -442,8 +465,9 @@ def membership_loop(body, field, hit_pred):
 
 
 def eq_test_taken(elem_field, key):
-    """hit predicate: the path takes the true edge of `element.<elem_field> == <key term>`"""
-    def pred(body, nx, path):
+    """hit predicate: the path takes the true edge of `element.<elem_field> == <key term>` (the element being what this
+    iteration's next() returned, or -- with head_of -- the first entry `split_first(..).0`)"""
+    def pred(body, nx, path, head_of=None):
         for i in range(len(path) - 1):
             bb = path[i]
             if bb not in body.switches:
@@ -460,8 +484,18 @@ def eq_test_taken(elem_field, key):
             from ..core import chain as _chain
             for a, b in (sides, sides[::-1]):
                 ra, na = _chain(a)
-                if isinstance(ra, tuple) and ra[0] == "call" and ra[1] == nx.bb and na[-1:] == [elem_field] and peel(b) == key:
-                    return True
+                ra = peel(ra)
+                while isinstance(ra, tuple) and ra[0] == "ok":
+                    ra = peel(ra[1])
+                if peel(b) != key or na[-1:] != [elem_field]:
+                    continue
+                if head_of is None:
+                    if isinstance(ra, tuple) and ra[0] == "call" and nx is not None and ra[1] == nx.bb:
+                        return True
+                else:
+                    nn = [k_ for k_ in na if not k_.startswith("@")]
+                    if isinstance(ra, tuple) and ra[0] == "call" and ra[1] == head_of[1] and nn[:1] == ["0"]:
+                        return True
         return False
     return pred
 
@@ -777,3 +811,106 @@ def connack_property_arms(f):
                 if v not in out or stores:
                     out[v] = {"stores": stores, "unconditional": unconditional, "span": cb.line(tgt), "body": cb, "feeds": feeds}
     return out
+
+
+def element_predicate_table(f, body, field, elem_adt, dims):
+    """Truth table of the per-element test of a boolean search over `field` (`.iter().any(|e| ..)`, or the loop it is read
+    as): for every combination of variants of the element's enum-typed fields `dims` = [(field name, adt)] the value the
+    test has for such an element -- True / False / None (not decided by the variants alone, or not evaluable).
+    Tests may be discriminant switches (`matches!`, `match`) or derived `==` / `!=` against a variant constant."""
+    from .. import paths as _paths
+    import itertools
+    nxt = [c for c in body.calls.values() if c.bb in body.reachable and c.is_("core::iter::Iterator::next")
+           and any(x[0] == "field" and x[2] == field for x in walk(body.operand_term(c.args[0])))]
+    if len(nxt) != 1:
+        return None
+    nx = nxt[0]
+    sw = None
+    for bb in body.switches:
+        si = body.switch_info(bb)
+        if si["enum"] == "core::option::Option" and any(a[0] == "call" and a[1] == nx.bb for a in phi_alts(peel(si["subject"]))):
+            sw = si
+    if sw is None or sw["edges"].get("Some") is None:
+        return None
+    variants = {}
+    for name, adt in dims:
+        a = f.adts.get(adt)
+        if not a:
+            return None
+        variants[name] = [(v["name"], bool(v["fields"])) for v in a["variants"]]
+
+    def elem_field(t):
+        """name of the element field a term reads (rooted at this loop's next()), or None"""
+        r, n = chain(t)
+        r = peel(r)
+        if isinstance(r, tuple) and r[0] == "call" and r[1] == nx.bb:
+            n = [k for k in n if not k.startswith("@") and k != "0"]
+            if n and n[0] in variants:
+                return n[0], n[1:]
+        return None
+
+    table = {}
+    for combo in itertools.product(*[[v for v, _ in variants[name]] for name, _ in dims]):
+        assume = dict(zip([name for name, _ in dims], combo))
+        hasf = {name: dict(variants[name]) for name, _ in dims}
+
+        def hook(b, bb, si):
+            subj = si["subject"]
+            on = b.switches[bb]["on"]
+            pl = on.get("move") or on.get("copy")
+            if si.get("path") and pl is not None and not pl["proj"]:
+                pv = _paths.value_on_path(b, si["path"], pl["l"])
+                if pv is not None:
+                    subj = pv
+            s_ = peel(subj)
+            if isinstance(s_, tuple) and s_[0] == "discr":
+                s_ = peel(s_[1])
+            # discriminant test of an element field
+            if si["enum"]:
+                ef = elem_field(s_)
+                if ef is not None and not ef[1]:
+                    v = assume[ef[0]]
+                    tgt = si["edges"].get(v, si["otherwise"])
+                    return (("k", bb), {v: tgt})
+                return None
+            # derived == / != against a variant constant
+            neg = False
+            if isinstance(s_, tuple) and s_[0] == "un" and s_[1] == "Not":
+                neg = True
+                s_ = peel(s_[2])
+            if is_call(s_, "core::cmp::PartialEq::eq", "core::cmp::PartialEq::ne") and len(s_[3]) == 2:
+                a, c2 = peel(s_[3][0]), peel(s_[3][1])
+                for x, y in ((a, c2), (c2, a)):
+                    ef = elem_field(x)
+                    if ef is not None and not ef[1] and y[0] == "agg" and y[1] == "adt":
+                        v = assume[ef[0]]
+                        if y[3] != v:
+                            eq = False
+                        elif not hasf[ef[0]].get(v):
+                            eq = True
+                        else:
+                            return None
+                        val = eq if s_[4].endswith("::eq") else (not eq)
+                        if neg:
+                            val = not val
+                        tgt = si["edges"].get(val)
+                        if tgt is None:
+                            return None
+                        return (("k", bb), {val: tgt})
+            return None
+
+        outcomes = set()
+        for lf in _paths.explore(body, sw["edges"]["Some"], lambda t: False, lambda b_, x: False,
+                                 stop_pred=lambda b_, x: x == nx.bb, switch_hook=hook, max_paths=2000):
+            if lf["kind"] == "limit":
+                outcomes.add(None)
+            elif lf["kind"] == "stop":
+                outcomes.add(False)      # back at the loop head: this element did not satisfy the test
+            elif lf["kind"] == "return":
+                v = _paths.value_on_path(body, [sw["bb"]] + lf["path"], 0)
+                if v is not None and v[0] == "const" and v[2] in (0, 1):
+                    outcomes.add(bool(v[2]))
+                else:
+                    outcomes.add(None)
+        table[combo] = next(iter(outcomes)) if len(outcomes) == 1 else None
+    return table
